@@ -386,7 +386,8 @@ impl<'a> TGen<'a> {
         // sets must be non-empty in the conservative fragment (strict mode rejects `[]`)
         match ty {
             RType::Set(el) => {
-                let n = 1 + t.upto(2);
+                // record literals differ in optionality from each other: one element only for record-bearing sets
+                let n = if is_simple(el) { 1 + t.upto(2) } else { 1 };
                 E::Set((0..n).map(|_| self.lit_of(t, el)).collect())
             }
             RType::Rec(attrs) => {
@@ -425,6 +426,11 @@ impl<'a> TGen<'a> {
             }
             self.max_derefs = self.max_derefs.max(p.derefs);
             return (p.guards, p.e);
+        }
+        if depth > 0 && t.bool_p(1, 12) {
+            // a record literal that is projected right away: `{f: e}.f` (hides a dereference from a syntactic level count)
+            let (g, e) = self.term(t, ty, depth - 1);
+            return (g, E::GetAttr(b(E::Rec(vec![("f".to_string(), e)])), "f".to_string()));
         }
         if depth > 0 {
             match ty {
@@ -709,12 +715,17 @@ pub fn gen_policy_for(t: &mut Tape, s: &RSchema, a: &RAction, ptype: &str, rtype
     };
     let principal = scope_of(t, ptype, slots & 1 != 0);
     let resource = scope_of(t, rtype, slots & 2 != 0);
-    let groups: Vec<Uid> = s.action_ancestors(a).into_iter().collect();
+    // `action in g` covers g and every member of g: use only groups (and the action itself as a group)
+    // whose only appliable member is this action, otherwise the policy applies to environments its
+    // conditions are not typed for
+    let exclusive = |g: &Uid| appliable_actions(s).iter().all(|x| x.uid() == a.uid() || !(x.uid() == *g || s.action_ancestors(x).contains(g)));
+    let groups: Vec<Uid> = s.action_ancestors(a).into_iter().filter(|g| exclusive(g)).collect();
+    let self_exclusive = exclusive(&a.uid());
     let action = match t.weighted(&[2, 4, 2, 2]) {
         0 => ActC::Any,
         1 => ActC::Eq(a.uid()),
         2 if !groups.is_empty() => ActC::In(groups[t.upto(groups.len())].clone()),
-        3 => {
+        3 if self_exclusive => {
             let mut v = vec![a.uid()];
             if !groups.is_empty() && t.coin() {
                 v.push(groups[t.upto(groups.len())].clone());
